@@ -612,7 +612,7 @@ func c44Worker(w *WorkerCtx) {
 		if len(vs) > 0 {
 			v := vs[0]
 			rf := &ReplayFile{Property: "C44", Oracle: v.Oracle, VerifSeed: int64(w.Seed), Tier: w.Tier, Kind: "c44corpus", Custom: json.RawMessage(fmt.Sprintf("%q", it.Name)), Violation: &v}
-			res.Replay = WriteReplay(filepath.Join(verifDir(), "replay"), rf, "corpus-"+it.Name)
+			res.Replay = WriteReplay(filepath.Join(outDir(), "replay"), rf, "corpus-"+it.Name)
 			res.Violations = []Violation{v}
 		}
 		w.Emit(res)
@@ -653,7 +653,7 @@ func c44Worker(w *WorkerCtx) {
 		if len(vs) > 0 {
 			v := vs[0]
 			rf := &ReplayFile{Property: "C44", Oracle: v.Oracle, VerifSeed: int64(w.Seed), Tier: w.Tier, Kind: "c44zoo", Custom: json.RawMessage(fmt.Sprintf(`{"seed":%d,"engine":%q}`, seed, engine)), Violation: &v}
-			res.Replay = WriteReplay(filepath.Join(verifDir(), "replay"), rf, fmt.Sprintf("zoo-%d", seed))
+			res.Replay = WriteReplay(filepath.Join(outDir(), "replay"), rf, fmt.Sprintf("zoo-%d", seed))
 			res.Violations = []Violation{v}
 			w.Emit(res)
 			return
